@@ -20,6 +20,7 @@
  *      strictly decreases in every iteration (marker skipped, "TOC" skipped, marker replaced by a file of any
  *      length): inserted text is never rescanned.  The two inner loops have the obvious variants.
  *  (P) the search position handed to strstr is always inside the string being searched.
+ *  (C) a marker whose path was resolved and differs from every file being expanded is looked up in the file system.
  *  (X) the metadata block the engine reports for an included file is erased, in full, before the file is inserted.
  *  (M) manifest: a path is appended to the manifest only after it was compared with EVERY manifest entry and
  *      found different from each (ghost index g_mk); existing manifest entries are never removed or changed.
@@ -58,13 +59,13 @@ char * g_last;           /* where the last "{{" was found */
  * (contract-replaced) recursive call, exactly as with real allocation.
  * A string has no bytes here: str is the address of the object's tag byte (identity only), lengths are the DString fields; "inside the
  * string" is therefore stated over offsets (obligation (P)), not over memory. */
-typedef struct { size_t open_off, stop_off, ins_len; bool opened, ins, toc; bool live; DString * eng_d; DString d; char tag; } dsobj;     /* open_off..toc: ghost of obligation (R), per document */
+typedef struct { size_t open_off, stop_off, ins_len; bool opened, ins, toc, cand, any_eq, scanned; bool live; DString * eng_d; DString d; char tag; } dsobj;     /* open_off..toc: ghost of obligation (R); cand..scanned: of (C); per document */
 typedef struct pool { dsobj fp, eng, buf; size_t meta_off; bool strip_needed, strip_done; } pool;      /* meta_off..: ghost of obligation (X) */
 dsobj * g_S;             /* the document of the call under verification */
 pool * g_p0, * g_p1;     /* its scratch pool, and the (opaque) pool of a nested call */
 static void obj_init(dsobj * o, size_t extra) {
 	ASSERT(!o->live, "model capacity: one candidate path, one buffer and one engine alive at a time per activation");
-	o->live = true; o->d.str = &o->tag; o->eng_d = NULL; o->opened = false; o->ins = false; o->toc = false;
+	o->live = true; o->d.str = &o->tag; o->eng_d = NULL; o->opened = false; o->ins = false; o->toc = false; o->cand = false; o->any_eq = false; o->scanned = false;
 	size_t cap, l; ASSUME(cap >= 1 && cap <= DSMAX && l < cap && cap <= extra + 1);
 	o->d.currentStringBufferSize = cap; o->d.currentStringLength = l;
 }
@@ -78,7 +79,7 @@ static dsobj * obj_of(DString * d) { return d == &g_p0->fp.d ? &g_p0->fp : (d ==
 static void path_changed(DString * d) { if (d == &g_p0->fp.d) { g_hit = false; g_eq = false; g_mhit = false; g_meq = false; } }
 static void ds_relen(DString * d) { size_t l; ASSUME(l < d->currentStringBufferSize); d->currentStringLength = l; path_changed(d); }
 
-DString * d_string_new(const char * s) { g_hit = false; g_eq = false; g_mhit = false; g_meq = false; obj_init(&g_p0->fp, DSMAX); return &g_p0->fp.d; }  /* a new candidate path: nothing compared yet */
+DString * d_string_new(const char * s) { g_hit = false; g_eq = false; g_mhit = false; g_meq = false; obj_init(&g_p0->fp, DSMAX); g_S->cand = true; g_S->any_eq = false; g_S->scanned = false; return &g_p0->fp.d; }  /* a new candidate path: nothing compared yet */
 char * d_string_free(DString * d, bool freeCharacterData) {
 	ASSERT(d != g_src, "the document being expanded is not freed");
 	char * r = freeCharacterData ? NULL : d->str;
@@ -165,6 +166,7 @@ char * strstr(const char * h, const char * nd) {
 	} else if (g_S->opened) {
 		/* (R) where the search for the next marker resumes, given what happened to the previous one */
 		size_t expect = g_S->ins ? g_S->open_off + g_S->ins_len : (g_S->toc ? g_S->stop_off : g_S->open_off + 2);
+		ASSERT(!g_S->cand || g_S->any_eq || g_S->scanned, "(C) a marker whose path was resolved and is not one of the files being expanded is looked up in the file system (no reference is silently left unexpanded)");
 		ASSERT(off == expect, "(R) the search resumes right after the inserted text (substituted marker), at the closing braces of {{TOC}}, or right after the opening braces of a marker left in place: no marker is skipped, no inserted text is rescanned");
 	}
 	bool found; size_t k;
@@ -172,7 +174,7 @@ char * strstr(const char * h, const char * nd) {
 	ASSUME(k <= L && (!closer || k >= 2) && off + k + 2 <= L);       /* a match lies inside the string; "}}" cannot overlap the "{{" it is searched from */
 	if (!closer) {
 		g_last = (char *)h + k;
-		g_S->opened = true; g_S->open_off = off + k; g_S->ins = false; g_S->toc = false;
+		g_S->opened = true; g_S->open_off = off + k; g_S->ins = false; g_S->toc = false; g_S->cand = false;
 	} else {
 		g_S->stop_off = off + k;
 	}
@@ -187,6 +189,7 @@ int strncmp(const char * a, const char * b, size_t n) { int r; return r; }
 int strcmp(const char * a, const char * b) {
 	int r;
 	if (!__CPROVER_same_object(a, g_p0) && a[0] == 'T' && a[1] == 'O' && a[2] == 'C' && a[3] == 0) { g_S->toc = (r == 0); }        /* strcmp("TOC", text): the literal is the first argument */
+	if (g_stackp && g_peek_stack == g_stackp && r == 0) { g_S->any_eq = true; }        /* the candidate equals SOME file being expanded */
 	/* which entry is b?  decided by where it was read from (the last stack_peek_index), not by its address */
 	if (g_stackp && g_peek_stack == g_stackp && g_peek_idx == g_k && g_k < g_stackp->size && b == (const char *)g_stackp->element[g_k]) { if (r != 0) { g_hit = true; } else { g_eq = true; } }
 	if (g_manifest && g_peek_stack == g_manifest && g_peek_idx == g_mk && g_mk < g_manifest->size && b == (const char *)g_manifest->element[g_mk]) { if (r != 0) { g_mhit = true; } else { g_meq = true; } }
@@ -199,6 +202,7 @@ char * strcpy(char * dst, const char * src) { ASSERT(src == g_p0->fp.d.str && __
 DString * scan_file(const char * fname) {
 	ASSERT(g_stackp->size >= 1 && (const char *)g_stackp->element[g_stackp->size - 1] == fname, "(G) the file about to be opened is the entry just pushed on the stack of files being expanded");
 	ASSERT(!(g_k + 1 < g_stackp->size) || (g_hit && !g_eq), "(G) recursion guard: the path was compared with EVERY path already on the stack (ghost index) and differs from each -- a file is never expanded inside itself");
+	g_S->scanned = true;
 	bool exists;
 	if (!exists) { return NULL; }
 	obj_init(&g_p0->buf, DSMAX); g_p0->strip_needed = false; g_p0->strip_done = false;
@@ -228,7 +232,7 @@ void mmd_transclude_source(DString * source, const char * search_path, const cha
 #define POST_COMMON (DS_OK(source) && source->str == OLD(source->str) && source->currentStringBufferSize == OLD(source->currentStringBufferSize) \
 	&& POOL_OK(source)                          /* every object the call created was released */ \
 	&& POST_MAN)
-#define FRAME_T_MINE , g_S->open_off, g_S->stop_off, g_S->ins_len, g_S->opened, g_S->ins, g_S->toc
+#define FRAME_T_MINE , g_S->open_off, g_S->stop_off, g_S->ins_len, g_S->opened, g_S->ins, g_S->toc, g_S->cand, g_S->any_eq, g_S->scanned
 #define FRAME_T_THEIRS
 #define POOL_OK(src) (!MINE(src) || (!g_p0->fp.live && !g_p0->buf.live && !g_p0->eng.live))
 /* own pool + the pool of nested calls for the call under verification; only its own (opaque) pool for a nested call */
